@@ -8,14 +8,13 @@ import (
 	sdk "github.com/cosmos/cosmos-sdk/types"
 )
 
-// TokensFromShares calculate the token amount of provided shares, then truncated to Int
-// It uses `LegacyDec.Quo` to calculate the quotient, `LegacyDec.Quo` perform a bankers
-// rounding quotient, so the calculated token amount may be either larger or smaller
-// due to precision rounding issues. But it's acceptable, because bankers rounding balances the
-// deviation caused by precision, especially when a large number of restakers undertake
-// undelegation. Additionally, the last undelegation from an operator will undelegate all
-// remaining token to avoid the calculated token amount is bigger than the remaining token
-// caused by the bankers rounding.
+// TokensFromShares calculate the token amount of provided shares, then truncated to Int.
+// It uses `LegacyDec.QuoTruncate`, so the calculated token amount is never larger than the
+// exact quotient. With the bankers rounding of `LegacyDec.Quo` a holder of less than all the
+// shares could be credited the whole pool (when the other holders' part is below 5e-19 token),
+// leaving an empty pool with outstanding shares, which makes every later delegation to the
+// operator fail with ErrDivisorIsZero. The last undelegation from an operator still
+// undelegates all the remaining tokens, see RemoveShareFromOperator.
 func TokensFromShares(stakerShare, totalShare sdkmath.LegacyDec, totalAmount sdkmath.Int) (sdkmath.Int, error) {
 	if stakerShare.GT(totalShare) {
 		return sdkmath.NewInt(0), errorsmod.Wrapf(delegationtypes.ErrInsufficientShares, "the stakerShare is:%v the totalShare is:%v", stakerShare, totalShare)
@@ -27,7 +26,7 @@ func TokensFromShares(stakerShare, totalShare sdkmath.LegacyDec, totalAmount sdk
 		}
 		return sdkmath.NewInt(0), delegationtypes.ErrDivisorIsZero
 	}
-	return (stakerShare.MulInt(totalAmount)).Quo(totalShare).TruncateInt(), nil
+	return (stakerShare.MulInt(totalAmount)).QuoTruncate(totalShare).TruncateInt(), nil
 }
 
 // SharesFromTokens returns the shares of a delegation given a delegated amount. It
